@@ -249,6 +249,8 @@ def module_key(cls_index, filename, body, opts):
 
 
 BODIES = ['<p>a</p>', '<p>b</p>', '<p>a</p> ']
+# XML documents keep their line endings: documents that differ only there compile to different modules
+BODIES_XML = ['<?xml version="1.0"?>\n<p>a\n</p>', '<?xml version="1.0"?>\n<p>a\r\n</p>', '<?xml version="1.0"?>\r\n<p>a\n</p>']
 
 
 def pick(table, idx):
@@ -286,6 +288,8 @@ def key(o: int, a1: int, a2: int) -> bool:
             o1[name], o2[name] = (a1 == 1), (a2 == 1)
     elif mode == 'body':
         body1, body2 = pick(BODIES, a1), pick(BODIES, a2)
+    elif mode == 'body_xml':
+        body1, body2 = pick(BODIES_XML, a1), pick(BODIES_XML, a2)
     elif mode == 'class':
         k1, k2 = pick([0, 1, 2, 3], a1), pick([0, 1, 2, 3], a2)
         f1 = f2 = '/a/site/index.pt' if (k1 >= 2 or k2 >= 2) else None
